@@ -1,12 +1,12 @@
 SPECIFICATION Spec
 CONSTANTS
-  K = 3
+  K = 2
   T = 2
-  Deviations = {}
-  WithInvalid = FALSE
+  Deviations = {"CloseRevertsToLoaded"}
+  WithInvalid = TRUE
   TrackWant = TRUE
-  WithHistory = TRUE
-  MaxDepth = 4
+  WithHistory = FALSE
+  MaxDepth = 0
 VIEW vw
 CONSTRAINT Depth
 CHECK_DEADLOCK FALSE
@@ -20,5 +20,3 @@ PROPERTY RefusedChangesNothing
 PROPERTY ReopenShowsFile
 PROPERTY SessionKeepsFile
 PROPERTY ResumeKeepsObject
-INVARIANT ExportState
-ACTION_CONSTRAINT ExportTrans
